@@ -12,6 +12,7 @@ import (
 	"github.com/Trendyol/go-dcp/helpers"
 	"github.com/Trendyol/go-dcp/membership"
 	"github.com/Trendyol/go-dcp/servicediscovery"
+	"github.com/Trendyol/go-dcp/stream"
 	"github.com/asaskevich/EventBus"
 	"github.com/couchbase/gocbcore/v10"
 
@@ -428,7 +429,20 @@ func simpleMembershipMain() {
 		}
 		vrt.Quiesce()
 	}
+	// ownership is derived by the real discovery object from whatever numbering is in effect
+	const nvb = 64
+	cfgDyn := o.config()
+	cfgDyn.Dcp.Group.Membership.Type = "dynamic"
+	disc := stream.NewVBucketDiscovery(nil, cfgDyn, nvb, bus)
+	all := make([]uint16, nvb)
+	for i := range all {
+		all[i] = uint16(i)
+	}
+	owned := func(n, t int) string { return fmt.Sprint(helpers.ChunkSlice[uint16](all, t)[n-1]) }
 	put(number, total)
+	if got := fmt.Sprint(disc.Get()); got != owned(number, total) {
+		vrt.Failf("member %d/%d derives vBuckets %s, the partition rule gives %s", number, total, got, owned(number, total))
+	}
 	put(number, total) // a repetition is not announced
 	if i := dm.GetInfo(); i.MemberNumber != number || i.TotalMembers != total {
 		vrt.Failf("dynamic membership told %d/%d reports %d/%d", number, total, i.MemberNumber, i.TotalMembers)
@@ -440,6 +454,10 @@ func simpleMembershipMain() {
 	put(other, total)
 	if i := dm.GetInfo(); total > 1 && i.MemberNumber != other {
 		vrt.Failf("dynamic membership not updated to %d/%d: %d/%d", other, total, i.MemberNumber, i.TotalMembers)
+	}
+	// renumbered at the same group size: the same discovery object must follow
+	if got := fmt.Sprint(disc.Get()); got != owned(other, total) {
+		vrt.Failf("after renumbering to %d/%d the member still derives vBuckets %s, the partition rule gives %s (two owners / orphaned vBuckets)", other, total, got, owned(other, total))
 	}
 	vrt.SetOutcome(fmt.Sprintf("%d/%d", number, total))
 	_ = config.Dcp{}
